@@ -365,7 +365,7 @@ func init() {
 	)
 }
 
-func TestMain(m *testing.M)      { vf.Main(m, "C01") }
-func TestCorpus(t *testing.T)    { vf.Corpus(t) }
-func TestProp(t *testing.T)      { vf.RunAll(t) }
-func TestReplay(t *testing.T)    { vf.ReplayEnv(t) }
+func TestMain(m *testing.M)   { vf.Main(m, "C01") }
+func TestCorpus(t *testing.T) { vf.Corpus(t) }
+func TestProp(t *testing.T)   { vf.RunAll(t) }
+func TestReplay(t *testing.T) { vf.ReplayEnv(t) }
